@@ -1,6 +1,7 @@
 package desync
 
 import (
+	"fmt"
 	gnutar "archive/tar"
 	"io"
 	"io/ioutil"
@@ -155,6 +156,12 @@ func (fs *TarReader) Next() (f *File, err error) {
 		if err != nil {
 			return nil, err
 		}
+	}
+
+	// A hard link only names another member, which has gone by already, and the
+	// archive format has no hard links. Don't turn it into an empty file.
+	if h.Typeflag == gnutar.TypeLink {
+		return nil, fmt.Errorf("hard link '%s' to '%s' is not supported in tar input", h.Name, h.Linkname)
 	}
 
 	info := h.FileInfo()
